@@ -12,7 +12,8 @@ RULE = ("each case builds a structure from real pieces (repository proteins, cut
         "and determinant table; bridged CYS are 99.99 and not titrated; hetero groups carry the charge / "
         "model pKa configured for their type (harness's own cfg parser). Non-trivial: >= 2 chain starts or "
         "a hetero group or non-default numbering, and >= 3 expected sites; distinct = distinct (input "
-        "digest, options).")
+        "digest, options)."
+        " 12 % of the built cases run with a parameter file that keeps penalised groups (every site listed); 30 % carry neutral extra options (-q, --log-level, -g/-w, -r, --protonate-all, -k, -d).")
 ASSUMPTIONS = ["inputs with alternate-location tags, exact 2.5 A S-S ties or two separate residues sharing one "
                "identity are not judged by the census (counted in census_not_judged)",
                "ligand group typing has no independent oracle: only charge / model pKa per reported type are "
